@@ -14,7 +14,8 @@ Tie (every run, against /repo's working tree):
       strict load of the serialized text relabelled to the target's xsd succeeds (fresh model)
         <=> check_version_compatibility lists nothing <=> target in the returned mask <=> set_version is Ok,
       and after a successful set_version: version set, text unchanged but for the xsd name, strict reload as the target.
-    quick: 600 sampled table entries, thorough: EVERY partial-mask table entry in EVERY source version in which it can be built."""
+    quick: 600 sampled table entries PLUS every table entry of the 288 version-switching element types (about 2700 documents),
+    thorough: EVERY partial-mask table entry in EVERY source version in which it can be built."""
 import os, re, json, shutil
 import concurrent.futures as cf
 import lib
@@ -374,7 +375,7 @@ def run(tier, seed):
         rule="documents are built from the specification tables: every sub-element / attribute / enumeration value (attribute and "
              "element text) whose version mask is partial, plus every sub-element, attribute and sample value of the 288 element types "
              "whose name has different types in different versions (counts in coverage.table_entries); quick samples 600 entries "
-             "with one source version each, thorough takes every entry in every source version in which it can be built; each "
+             "with one source version each and always adds every entry of those 288 version-switching types, thorough takes every entry in every source version in which it can be built; each "
              "document is checked against all 21 target versions (single-file and two-file models with elements restricted to one "
              "file). evaluations = check_compat / set_version operations compared between the real library and the extracted Coq "
              "model; distinct_nontrivial = oracle checks in which the library reported an incompatibility",
@@ -387,8 +388,10 @@ def run(tier, seed):
                      "C17_exact is stated outside the classes K_recalc / K_mixup / K_skip; C17_exact_histories_real: on the regenerated real "
                      "tables (PairOK and MaskOK by sweep) the check is exact after EVERY history of the 26-operation alphabet from the empty "
                      "world whose moves / copies satisfy attach_ok (the destination lists the element's name with the element's stored "
-                     "datatype) - no hypothesis about the world; extended alphabet: sort, set_version, check, serialize covered "
-                     "(C17_exact_histories2_real_partial), OpLoad and OpDuplicate pending; a move / copy violating attach_ok really builds a "
+                     "datatype) - no hypothesis about the world; extended alphabet op2 (sort, set_version, check, serialize, "
+                     "duplicate, loads of first files AND merges): C17_exact_histories2_real, nothing pending - invariant Core /\\ TypedU /\\ PM "
+                     "(model-parented nodes carry the root type), loaded edges typed by Xml/LoadRecords `linked`, merges by PairOK; loads are "
+                     "taken outside C03's Known_load (Core for the loader); a move / copy violating attach_ok really builds a "
                      "document that neither loads strictly in its own version nor is flagged (avh compat xattach, findings/"
                      "C17-attach-keeps-stored-type.json; C07's subject); C17_exact_refuted_* / C17_mixup_panics show the classes on a toy table set",
                      "link to strict loading: C17_valid_loads / C17_clean_loads / C17_set_version_loads use the C01 theorems for the v-typed "
